@@ -175,6 +175,60 @@ def prove_compress_sweep(run):
                     "site, nothing else changes): its bookkeeping is decided by Engine S in kernel-stub mode (C04/C09 per-bond probes) and by the structural link above"]
 
 
+def replay_tree_compress(cex, locals_, ob):
+    """native replay for the tree recursion: random tree states (vk.specs.treeuniv) compressed with non-uniform per-node limits (list) and with an integer
+    limit; every bond below the root must obey its own limit"""
+    from vk.specs import treeuniv as TU
+    bad = []
+    tried = 0
+    for n_nodes in (3, 4, 5):
+        for seed in range(40, 46):
+            su = TU.setup(seed, n_nodes, "spinqn", max_dim=200)
+            if su is None:
+                continue
+            q = su["sectors"][len(su["sectors"]) // 2]
+            a = TU.random_ttns(su["bt"], q, 4, su["rng"])
+            if a is None:
+                continue
+            tried += 1
+            for lim in ([1 + (i % 3) for i in range(len(a.node_list))], 2):
+                x = a.copy()
+                try:
+                    x.compress(temp_m_trunc=lim)
+                except Exception as e:
+                    bad.append({"shape": repr(su["shape"]), "limits": lim, "raised": repr(e)})
+                    continue
+                dims = [int(nd.tensor.shape[-1]) for nd in x.node_list]
+                over = [i for i, nd in enumerate(x.node_list) if nd.parent is not None and dims[i] > (lim[i] if isinstance(lim, list) else lim)]
+                if over:
+                    bad.append({"shape": repr(su["shape"]), "limits": lim, "bond_dims": dims, "nodes_over_their_limit": over})
+    return bool(bad), {"trees_tried": tried, "failures": bad[:4], "how": "vk.specs.treeuniv.setup(seed 40..45, 3..5 nodes, 'spinqn') + random_ttns(M=4); TTNS.compress(temp_m_trunc=list / int)"}
+
+
+def prove_tree_compress_recursion(run):
+    """compress_recursion (tn/tree.py) as a whole function on the shape abstraction, recursion by its own contract: every bond below the start node obeys its own
+    limit and nothing else changes, for every tree"""
+    from contracts import tree as TC
+    from vk.pyvc import engine as E
+    from vk.pyvc import run as R
+    from vk.pyvc.slice import whole_function, SliceError
+    try:
+        fn = R.index().find(TC.REL, "compress_recursion")
+        sl = whole_function(fn, "compress_recursion", TC.SUBST, TC.PARAMS, must_hit=TC.MUST_HIT)
+    except (E.VCError, SliceError, ValueError, StopIteration) as e:
+        run.oblig("extract:compress_recursion", "compress_recursion", "A(pyvc)", "undecided", detail=f"function could not be extracted (stale contract): {e}")
+        return
+    run.extra.setdefault("pyvc_slices", {})["compress_recursion"] = {
+        "source": TC.REL, "description": "the whole body of compress_recursion with " + ", ".join(f"`{a}` -> `{b}`" for a, b in TC.SUBST.items())
+                                         + " (nodes are integers, ghost field dim = bond dimension to the parent, ghost relation desc = subtree membership under the tree axioms)",
+        "extracted_text": ast.unparse(sl)}
+    for main, callees in (TC.rec_list, TC.rec_int):
+        R.verify_node(run, TC.REL, main, sl, contracts=callees, fingerprint=TC.FINGERPRINT, replay=replay_tree_compress)
+    run.trusted += ["assumed contracts of TTNS.compress_node (cuts the bond of the given child with that child's own limit, nothing else changes) and TTNS.push_cano_to_parent "
+                    "(the bond does not grow, nothing else changes) on the shape abstraction: decided for all tensor values by the Engine-S per-node probes (C05/C11) and bounded",
+                    "tree axioms T1-T5 for the ghost relation desc (satisfied by the reflexive-transitive closure of `children` in every finite rooted tree)"]
+
+
 def prove(run):
     lemma_cnt_bounds(run)
     verify(run, K.REL, K.fixed, replay=replay_factory("_fixed_m_trunc", K.fixed), fingerprint={})
@@ -182,4 +236,5 @@ def prove(run):
     verify(run, K.REL, K.compute, contracts=K.CALLEES, replay=replay_factory("compute_m_trunc", K.compute), fingerprint={})
     call_site_links(run)
     prove_compress_sweep(run)
+    prove_tree_compress_recursion(run)
     run.trusted += ["assumed contract: scipy.linalg.norm(sigma) >= 0", "np.sum(boolean array) = recursive count cnt (definition)"]
